@@ -148,6 +148,37 @@ def run(ctx):
                               site=f"{m.qual}: {norm(x)}: i < 0 -> i + len once; then 0 <= i < len or runtime error")
     if n_sites < 4:
         ctx.broken("NodeDeref/NodeDerefAssign", f"only {n_sites} element accesses by index variable found")
+    # the same across a call: the built-in hands the program's index to a list method; exactly one of the two adds
+    # the length to a negative index
+    for cname, callee_name in (("FuncDeleteAt", "deleteAt"), ("FuncInsertAt", "insertAt")):
+        m = model.method(P, cname, "execute")
+        callee = model.method(P, "ValueList", callee_name)
+        cparam = callee.params[1]
+        callee_adds = any(
+            (isinstance(a, ast.AugAssign) and isinstance(a.op, ast.Add) and norm(a.target) == cparam) or
+            (isinstance(a, ast.Assign) and isinstance(a.value, ast.BinOp) and isinstance(a.value.op, ast.Add)
+             and cparam in (norm(a.value.left), norm(a.value.right)) and any(
+                 isinstance(t, ast.Name) for t in a.targets)) for a in ast.walk(callee.node))
+        states, g = _normal_states(model, m, ctx)
+        n_calls = 0
+        for node in g.nodes:
+            a = node.ast if node.kind != "for" else None
+            if a is None or node.id not in states:
+                continue
+            for c in ast.walk(a):
+                if isinstance(c, ast.Call) and isinstance(c.func, ast.Attribute) and c.func.attr == callee_name \
+                        and c.args and isinstance(c.args[0], ast.Name):
+                    st = {tag for v, tag in states[node.id] if v == c.args[0].id}
+                    n_calls += 1
+                    ok = st == {"raw"} if callee_adds else st <= {"norm", "checked"} and bool(st)
+                    ctx.check("C15.normal", m, c, ok,
+                              f"{m.qual} passes an index that is {sorted(st) or ['unknown']} to ValueList.{callee_name}, "
+                              f"which {'adds the length to a negative index itself' if callee_adds else 'does not normalise'}"
+                              f": a negative index is {'normalised twice (out-of-range negatives wrap into range)' if callee_adds else 'never normalised'}",
+                              expr=f"{cname} -> {callee_name} normalisation",
+                              site=f"{m.qual}: index normalised exactly once across {callee_name}()")
+        if n_calls == 0:
+            ctx.broken(m.qual, f"call of {callee_name} with the index variable not found")
 
 
 _HELPER_CACHE = {}
